@@ -16,7 +16,7 @@ def run(chk, tier):
     cg = C.run(tier)
     per = C.oracle(chk, cg)
     chk.note("composition", {"cells": cg["ncells"], "per_method": per, "engine_wall_s": round(cg["wall"], 1),
-                             "not_composed": {"$y$ / $gy$": "crypt path not covered by the interpreter"},
+                             "not_composed": {"$gy$": "crypt path not covered by the interpreter"},
                              "digit_fields_concretised": sorted(C.CONCRETISE_DIGITS)})
     npaths = sum(c["npaths"] for c in g["res"].values())
     chk.note("grid", {"cells": g["ncells"], "abstract_paths": npaths, "engine_wall_s": round(g["wall"], 1), "from_cache": g["cached"],
